@@ -225,10 +225,31 @@ func (x *Exec) line(n ast.Node) string {
 func (x *Exec) selectStmt(s *ast.SelectStmt, st *State, cx *Ctx, k func(*State)) {
 	inner := *cx
 	inner.onBreak = k
+	// C16: a select with stop cases is a poll of the stop signals
+	stopCase := map[int]bool{}
+	hasStop := false
+	for i, cl := range s.Body.List {
+		if x.isStopComm(cl.(*ast.CommClause).Comm) {
+			stopCase[i] = true
+			hasStop = true
+		}
+	}
+	site := fmt.Sprintf("select[%d]", x.ordinal(s))
+	if hasStop {
+		if g := (&SEnv{x: x, st: st, pkg: x.fn.pkgPath()}).ghostDecl("gPolls"); g != nil {
+			old := (&SEnv{x: x, st: st, pkg: x.fn.pkgPath()}).eval(&SX{Op: "id", Name: "gPolls", Pos: "engine"})
+			c := x.freshConst("g_gPolls", "Int")
+			st.assume(app("=", c, app("+", old.T, "1")))
+			st.heap["g_gPolls"] = Val{T: c, S: "Int"}
+		}
+	}
 	for i, cl := range s.Body.List {
 		cc := cl.(*ast.CommClause)
 		b := st.fork()
 		b.note(fmt.Sprintf("select@%s:case%d", x.line(s), i))
+		if hasStop {
+			b.polls = append(b.polls, poll{site, fmt.Sprint(stopCase[i])})
+		}
 		switch c := cc.Comm.(type) {
 		case nil:
 		case *ast.SendStmt:
@@ -243,6 +264,46 @@ func (x *Exec) selectStmt(s *ast.SelectStmt, st *State, cx *Ctx, k func(*State))
 		}
 		x.stmts(cc.Body, b, &inner, k)
 	}
+}
+
+// isStopComm: the communication receives from a channel whose event hook sets gStop.
+func (x *Exec) isStopComm(comm ast.Stmt) bool {
+	var ch ast.Expr
+	switch c := comm.(type) {
+	case *ast.ExprStmt:
+		if u, ok := ast.Unparen(c.X).(*ast.UnaryExpr); ok && u.Op == token.ARROW {
+			ch = u.X
+		}
+	case *ast.AssignStmt:
+		if len(c.Rhs) == 1 {
+			if u, ok := ast.Unparen(c.Rhs[0]).(*ast.UnaryExpr); ok && u.Op == token.ARROW {
+				ch = u.X
+			}
+		}
+	}
+	if ch == nil {
+		return false
+	}
+	ev, _ := x.findEvent("recv", ch)
+	if ev == nil {
+		return false
+	}
+	for _, c := range ev.Clauses {
+		if c.Kind == "effect" && c.Target == "gStop" {
+			return true
+		}
+	}
+	return false
+}
+
+// bePath is one feasible-looking path through one iteration of a loop (head to back edge).
+type bePath struct {
+	ord   int
+	line  string
+	pc    []string
+	polls []poll
+	trail []string
+	kind  string // for: needs the stop rule; range: bounded, exempt
 }
 
 // spawn checks the callee's precondition at a go statement.
@@ -552,20 +613,23 @@ func (x *Exec) loop(s ast.Stmt, st *State, cx *Ctx, k func(*State)) {
 		}
 		pre := st.fork()
 		h := st
+		var locs []types.Object
 		for o := range ms.locals {
-			if old, ok := h.vars[o]; ok {
-				nv := x.freshVal(h, "lp_"+o.Name(), o.Type())
-				_ = old
-				h.vars[o] = nv
+			locs = append(locs, o)
+		}
+		sort.Slice(locs, func(a, b int) bool { return locs[a].Pos() < locs[b].Pos() })
+		for _, o := range locs {
+			if _, ok := h.vars[o]; ok {
+				h.vars[o] = x.freshVal(h, "lp_"+o.Name(), o.Type())
 			}
 		}
-		for name := range ms.whole {
+		for _, name := range sortedKeys(ms.whole) {
 			if cur, ok := h.heap[name]; ok {
 				h.heap[name] = Val{T: x.freshConst("lp_"+name, cur.S), S: cur.S}
 				h.wrote(name, "*", "true")
 			}
 		}
-		for g := range ms.ghosts {
+		for _, g := range sortedKeys(ms.ghosts) {
 			if d := (&SEnv{x: x, st: h, pkg: x.fn.pkgPath()}).ghostDecl(g); d != nil {
 				h.heap["g_"+g] = Val{T: x.freshConst("lp_g_"+g, d.Sort), S: d.Sort}
 			}
@@ -577,10 +641,13 @@ func (x *Exec) loop(s ast.Stmt, st *State, cx *Ctx, k func(*State)) {
 		nr := x.freshConst("nextref", "Int")
 		h.assume(app(">=", nr, h.nextref))
 		h.nextref = nr
+		x.bumpPolls(h)
 		hid := map[string]Val{}
-		for k2, v := range hidden {
-			c := x.freshConst("lp"+sane(k2), v.S)
-			hid[k2] = Val{T: c, S: v.S}
+		for _, k2 := range []string{"$i", "$visited"} {
+			if v, ok := hidden[k2]; ok {
+				c := x.freshConst("lp"+sane(k2), v.S)
+				hid[k2] = Val{T: c, S: v.S}
+			}
 		}
 		if kind == "slice" {
 			h.assume(and(app("<=", "0", hid["$i"].T), app("<=", hid["$i"].T, app("sl_len", rangeVal.T))))
@@ -595,6 +662,8 @@ func (x *Exec) loop(s ast.Stmt, st *State, cx *Ctx, k func(*State)) {
 			}
 		}
 		h.note(fmt.Sprintf("loop[%d]@%s:head", ord, x.line(s)))
+		outerPolls := h.polls
+		h.polls = nil
 		// condition / iteration split
 		exit := h.fork()
 		iter := h
@@ -686,6 +755,16 @@ func (x *Exec) loop(s ast.Stmt, st *State, cx *Ctx, k func(*State)) {
 				x.assignTo(iter, rng.Key, v)
 			}
 		}
+		lkind := "range"
+		if forS != nil || kind == "chan" {
+			lkind = "for"
+		}
+		kOuter := k
+		k = func(st *State) {
+			// leaving the loop: back in the enclosing iteration
+			st.polls = append(outerPolls[:len(outerPolls):len(outerPolls)], st.polls...)
+			kOuter(st)
+		}
 		if exit != nil {
 			exit.note(fmt.Sprintf("loop[%d]:exit", ord))
 			k(exit)
@@ -703,6 +782,8 @@ func (x *Exec) loop(s ast.Stmt, st *State, cx *Ctx, k func(*State)) {
 			}
 			post(hid2)
 			st.ghostTmp = nil
+			x.bePaths = append(x.bePaths, &bePath{ord: ord, line: x.line(s), pc: st.pc[:len(st.pc):len(st.pc)], polls: st.polls[:len(st.polls):len(st.polls)],
+				trail: st.trail[:len(st.trail):len(st.trail)], kind: lkind})
 			checkInvs(st, hid2, "inv-preserved")
 			x.paths++
 		}
@@ -975,6 +1056,15 @@ func (x *Exec) insertsIntoRanged(rng *ast.RangeStmt) bool {
 		return true
 	})
 	return found
+}
+
+func sortedKeys(m map[string]bool) []string {
+	var out []string
+	for k := range m {
+		out = append(out, k)
+	}
+	sort.Strings(out)
+	return out
 }
 
 func rootIdent(e ast.Expr) *ast.Ident {
@@ -1330,6 +1420,9 @@ func (x *Exec) checkFrame(st *State) {
 	}
 	sort.Strings(names)
 	for _, name := range names {
+		if name == "g_gPolls" {
+			continue
+		}
 		if strings.HasPrefix(name, "g_") {
 			cur := st.heap[name]
 			init := "H0_" + name
